@@ -295,7 +295,7 @@ class G:
         if k < 52:
             it = self.ch([S.EnumInsertType.INSERT_INTO, S.EnumInsertType.INSERT_IGNORE_INTO] + ([S.EnumInsertType.INSERT_OVERWRITE] if self.st.name in ("HIVE", "DEFAULT") else []))
             head = dict(with_clause=self.with_clause(1), insert_type=N.ASTInsertType(enum=it), table_name=self.table_name(), partition=self.opt(self.partition, 0.3),
-                        columns=self.opt(lambda: tuple(N.ASTColumnNameExpression(table_name=self.opt(lambda: "t", 0.2), column_name=self.ch(NAMES)) for _ in range(self.n(1, 3))), 0.5))
+                        columns=self.opt(lambda: tuple(N.ASTColumnNameExpression(table_name=self.opt(lambda: "t", 0.2), column_name=self.ch(NAMES)) for _ in range(self.n(0, 3))), 0.5))          # an explicit EMPTY column list `()` is not "no column list" (seeded C03-13)
             if self.p(0.5):
                 return N.ASTInsertValuesStatement(values=tuple(N.ASTSubValueExpression(values=tuple(self.cexpr(2) for _ in range(self.n(1, 3)))) for _ in range(self.n(1, 3))), **head)
             return N.ASTInsertSelectStatement(select_statement=self.query(1, allow_with=False), **head)
